@@ -142,20 +142,46 @@ class Ctx:
 
     # ------------------------------------------------------------------ harness
     def vh(self, cmd, mode=None, infile=None, extra=(), timeout=1800):
+        """Runs the harness.  A case that aborts the process (violated unsafe precondition, double panic: C20 territory)
+        is recorded as a disagreement and the run is repeated without it (at most 12 times)."""
         self.nseq += 1
         out = os.path.join(self.work, "vh_%02d.json" % self.nseq)
-        args = ["timeout", str(timeout), VH, cmd, "--out", out, "--seed", str(self.seed)]
-        if mode:
-            args += ["--mode", mode]
-        if infile:
-            args += ["--in", infile]
-        args += list(extra)
-        p = subprocess.run(args, cwd=self.work, stdout=subprocess.PIPE, stderr=subprocess.STDOUT, text=True,
-                           env=dict(os.environ, VERIF_TIER=self.tier))
-        if p.returncode != 0 or not os.path.exists(out):
-            sys.stderr.write(p.stdout[-4000:])
-            raise ToolError("harness failed: %s (rc %d)" % (" ".join(args), p.returncode))
+        skip = []
+        aborts = []
+        while True:
+            args = ["timeout", str(timeout), VH, cmd, "--out", out, "--seed", str(self.seed)]
+            if mode:
+                args += ["--mode", mode]
+            if infile:
+                args += ["--in", infile]
+            if skip:
+                args += ["--skip", ",".join(map(str, skip))]
+            args += list(extra)
+            for f in (out, out + ".abort"):
+                if os.path.exists(f):
+                    os.remove(f)
+            p = subprocess.run(args, cwd=self.work, stdout=subprocess.PIPE, stderr=subprocess.STDOUT, text=True,
+                               env=dict(os.environ, VERIF_TIER=self.tier))
+            if p.returncode != 0 and os.path.exists(out + ".abort"):
+                try:
+                    ab = json.load(open(out + ".abort"))
+                except ValueError:
+                    # several threads aborted at once: repeat single-threaded for a clean record
+                    os.environ["VH_THREADS"] = "1"
+                    continue
+                aborts.append(ab)
+                self.violation("process abort: " + ab["message"], ab.get("case"), cmd=cmd, mode=mode)
+                if ab.get("index") is None or ab["index"] > 10**12 or len(aborts) >= 12:
+                    self.notes.append("harness run stopped after %d aborting cases" % len(aborts))
+                    return {"cases": 0, "checks": 0, "aborts": aborts}
+                skip.append(ab["index"])
+                continue
+            if p.returncode != 0 or not os.path.exists(out):
+                sys.stderr.write(p.stdout[-4000:])
+                raise ToolError("harness failed: %s (rc %d)" % (" ".join(args), p.returncode))
+            break
         rep = json.load(open(out))
+        rep["aborts"] = aborts
         self.replayed += rep.get("cases", 0)
         self.checks += rep.get("checks", 0)
         for k, v in rep.get("classes", {}).items():
